@@ -1,23 +1,10 @@
 import PoseVerif.Proofs.Pose
+import PoseVerif.Model.SpecEnc
 /-!
 Reference encoders written from `docs/specs/v0.{0,1,2}.md` as total functions (flat concatenations, field by field), and the fact
 that the model writer produces exactly the documented header for representable headers.
 -/
 namespace PoseVerif
-
-def specStr (s : String) : Bytes := putU16 (bytesOfString s).length ++ bytesOfString s
-
-def specComp (c : Comp) : Bytes :=
-  specStr c.name ++ specStr c.format ++
-  putU16 c.points.length ++ putU16 c.limbs.length ++ putU16 c.colors.length ++
-  c.points.flatMap specStr ++
-  c.limbs.flatMap (fun l => putU16 l.1 ++ putU16 l.2) ++
-  c.colors.flatMap (fun k => putU16 k.1 ++ putU16 k.2.1 ++ putU16 k.2.2)
-
-/-- `# Header` of the specs (identical in the three versions) with the given version pattern -/
-def specHeader (h : Header) (version : F32) : Bytes :=
-  putF32 version ++ putU16 h.width ++ putU16 h.height ++ putU16 h.depth ++
-  putU16 h.comps.length ++ h.comps.flatMap specComp
 
 theorem mapM_flatten {α : Type} (f : α → Option Bytes) (g : α → Bytes) (xs : List α) (ys : List Bytes)
     (hfg : ∀ x b, f x = some b → b = g x) (h : xs.mapM f = some ys) : ys.flatten = xs.flatMap g := by
